@@ -585,7 +585,7 @@ func genCond(dt *drv.T) *Cond {
 }
 
 func genSig(dt *drv.T, kinds []string) *Stmt {
-	return &Stmt{Op: "sig", Kind: pick(dt, "sigkind", kinds...), Site: drv.IntRange(0, 11).Draw(dt, "site")}
+	return &Stmt{Op: "sig", Kind: pick(dt, "sigkind", kinds...), Site: drv.IntRange(0, 11).Draw(dt, "site"), Empty: chance(dt, "emptymsg", 8)}
 }
 
 func genCleanup(dt *drv.T, depth int) *Stmt { return genCleanupK(dt, depth, allSigKinds) }
